@@ -40,7 +40,8 @@ pub struct Cfg {
 impl Cfg {
     pub fn gen(seed: u64, thorough: bool) -> Cfg {
         let mut r = Rng::new(seed);
-        let comp = if thorough && cfg!(feature = "full") && r.chance(1, 5) { if r.chance(1, 2) { Comp::Gz } else { Comp::Zst } } else { Comp::None };
+        let _ = thorough;
+        let comp = if cfg!(feature = "full") && r.chance(1, 4) { if r.chance(1, 2) { Comp::Gz } else { Comp::Zst } } else { Comp::None };
         let mut pattern_rel = (*r.pick(&["app.{}.log", "arch/app.{}.log"])).to_owned();
         match comp {
             Comp::Gz => pattern_rel.push_str(".gz"),
@@ -133,8 +134,11 @@ struct HookState {
     /// chunks the rotation in progress must retain (taken at its first point)
     retained: Vec<Vec<u8>>,
     fault_at: Option<usize>,
+    /// use a symlink to /dev/full (writes fail with ENOSPC) instead of an obstacle directory, where possible
+    devfull: bool,
     planted: Option<PathBuf>,
     fault_skipped: bool,
+    used_devfull: bool,
     images_to: Option<PathBuf>,
     images: Vec<ImageMeta>,
     abort_at: Option<usize>,
@@ -161,7 +165,9 @@ fn plant_obstacle(dest: &Path) {
 fn remove_obstacles(root: &Path, kind: &RollerKind) {
     for (_, name) in kind.managed() {
         let p = root.join(&name);
-        if p.is_dir() && p.join("obstacle/keep").exists() {
+        if std::fs::symlink_metadata(&p).map(|m| m.file_type().is_symlink()).unwrap_or(false) {
+            let _ = std::fs::remove_file(&p);
+        } else if p.is_dir() && p.join("obstacle/keep").exists() {
             let _ = std::fs::remove_dir_all(&p);
         }
     }
@@ -214,6 +220,7 @@ pub struct RunOut {
     pub problems: Vec<(String, String)>,
     pub planted: Option<PathBuf>,
     pub fault_skipped: bool,
+    pub used_devfull: bool,
     pub app: Option<Box<dyn Append>>,
     pub next_seq: u32,
 }
@@ -221,8 +228,12 @@ pub struct RunOut {
 /// Runs the history on `root`. With `fault_at`, the obstacle is planted at that
 /// hook point and the run stops right after the failing append.
 pub fn run_history(cfg: &Cfg, root: &Path, fault_at: Option<usize>, images_to: Option<PathBuf>, abort_at: Option<usize>) -> RunOut {
+    run_history_with(cfg, root, fault_at, images_to, abort_at, false)
+}
+
+pub fn run_history_with(cfg: &Cfg, root: &Path, fault_at: Option<usize>, images_to: Option<PathBuf>, abort_at: Option<usize>, devfull: bool) -> RunOut {
     let kind = cfg.roller();
-    let st = Rc::new(RefCell::new(HookState { fault_at, images_to, abort_at, ..Default::default() }));
+    let st = Rc::new(RefCell::new(HookState { fault_at, images_to, abort_at, devfull, ..Default::default() }));
     let acks_count = Rc::new(RefCell::new(0usize));
     {
         let st = st.clone();
@@ -274,7 +285,13 @@ pub fn run_history(cfg: &Cfg, root: &Path, fault_at: Option<usize>, images_to: O
                 // a shift whose source does not exist is a tolerated no-op: an obstacle cannot make it fail
                 let src_exists = name != "rotate.shift" || root.join(crate::c07::archive_rel(&pattern_rel, arg)).exists();
                 if src_exists {
-                    plant_obstacle(&dest);
+                    if s.devfull && name == "rotate.final" && (pattern_rel.ends_with(".gz") || pattern_rel.ends_with(".zst")) {
+                        let _ = std::fs::remove_file(&dest);
+                        let _ = std::os::unix::fs::symlink("/dev/full", &dest);
+                        s.used_devfull = true;
+                    } else {
+                        plant_obstacle(&dest);
+                    }
                     s.planted = Some(dest);
                 } else {
                     s.fault_skipped = true;
@@ -286,7 +303,7 @@ pub fn run_history(cfg: &Cfg, root: &Path, fault_at: Option<usize>, images_to: O
             }
         })));
     }
-    let mut out = RunOut { acks: vec![], points: 0, rotations: 0, images: vec![], failed_append_seq: None, problems: vec![], planted: None, fault_skipped: false, app: None, next_seq: 0 };
+    let mut out = RunOut { acks: vec![], points: 0, rotations: 0, images: vec![], failed_append_seq: None, problems: vec![], planted: None, fault_skipped: false, used_devfull: false, app: None, next_seq: 0 };
     let app = match build(cfg, root, cfg.script()) {
         Ok(a) => a,
         Err(e) => {
@@ -320,20 +337,39 @@ pub fn run_history(cfg: &Cfg, root: &Path, fault_at: Option<usize>, images_to: O
     out.images = s.images.iter().map(|m| (m.point, m.rotation, m.step.clone(), m.dir.clone(), m.acks_so_far, m.retained.clone())).collect();
     out.planted = s.planted.clone();
     out.fault_skipped = s.fault_skipped;
+    out.used_devfull = s.used_devfull;
     out.problems.extend(s.problems.iter().cloned());
     out.app = Some(app);
     out
 }
 
 fn continue_appends(app: &dyn Append, acks: &mut Vec<Ack>, seq: &mut u32, n: usize, big: usize) -> Vec<bool> {
+    continue_appends_checked(app, acks, seq, n, big, None).0
+}
+
+/// Like `continue_appends`, but runs the stream oracle after every single append (damage done by one
+/// rotation may be evicted from the window by the next ones).
+fn continue_appends_checked(
+    app: &dyn Append,
+    acks: &mut Vec<Ack>,
+    seq: &mut u32,
+    n: usize,
+    big: usize,
+    check: Option<(&Path, &RollerKind)>,
+) -> (Vec<bool>, Option<(String, String)>) {
     let mut oks = vec![];
     for _ in 0..n {
         let a = append_frame(app, 1, *seq, big, false);
         *seq += 1;
         oks.push(a.ok);
         acks.push(a);
+        if let Some((root, kind)) = check {
+            if let Err(e) = stream_check(root, kind, acks) {
+                return (oks, Some(e));
+            }
+        }
     }
-    oks
+    (oks, None)
 }
 
 fn one_history(rep: &mut Report, _rng: &mut Rng, idx: u64) {
@@ -390,9 +426,13 @@ fn one_history(rep: &mut Report, _rng: &mut Rng, idx: u64) {
             Err(e) => fail(rep, "image:restart-failed", pt.clone(), e),
             Ok(app) => {
                 let mut seq = acks.iter().map(|a| a.id.seq + 1).max().unwrap_or(0).max(clean.next_seq) + 100;
-                let oks = continue_appends(&*app, &mut acks, &mut seq, 4, big);
+                let (oks, early) = continue_appends_checked(&*app, &mut acks, &mut seq, 2 * cfg.count as usize + 2, big, Some((dir, &kind)));
                 if let Some(pn) = take_panic() {
                     fail(rep, "image:panic-after-restart", pt.clone(), pn);
+                    continue;
+                }
+                if let Some((sig, what)) = early {
+                    fail(rep, &format!("image-continued:{}", sig), pt.clone(), format!("after {} append(s) on the restarted image: {}", oks.len(), what));
                     continue;
                 }
                 if oks.iter().any(|o| !o) {
@@ -410,13 +450,22 @@ fn one_history(rep: &mut Report, _rng: &mut Rng, idx: u64) {
 
     // ---- faults: one run per hook point
     for p in 0..clean.points {
-        for restart in [false, true] {
+        // continuations: 0 same appender, 1 restarted appender, 2 obstruction removed at once + restart + many rotations
+        for variant in 0..3 {
+            let restart = variant >= 1;
+            let immediate = variant == 2;
             rep.count("fault_runs", 1);
-            rep.case(&format!("{}|fault|{}|{}", cfg.describe(), p, restart), true);
+            rep.case(&format!("{}|fault|{}|{}", cfg.describe(), p, variant), true);
             let fs = Scratch::new("c08f");
-            let mut out = run_history(&cfg, &fs.path, Some(p), None, None);
-            let pt = json!({"kind": "filesystem fault (non-empty directory at the step's destination)", "point_index": p,
-                "continuation": if restart { "restarted appender" } else { "same appender" }});
+            let devfull = cfg.comp != Comp::None && (p + variant) % 2 == 0;
+            let mut out = run_history_with(&cfg, &fs.path, Some(p), None, None, devfull);
+            if out.used_devfull {
+                rep.count("faults_injected_as_enospc_on_the_archive", 1);
+            }
+            let cont_name = ["same appender", "restarted appender", "obstruction removed immediately, restarted appender, many rotations"][variant];
+            let pt = json!({"kind": if out.used_devfull { "filesystem fault (archive slot is a link to /dev/full: writes fail with ENOSPC)" } else { "filesystem fault (non-empty directory at the step's destination)" },
+                "point_index": p,
+                "continuation": cont_name});
             for (sig, what) in &out.problems {
                 fail(rep, &format!("fault:{}", sig), pt.clone(), what.clone());
             }
@@ -443,14 +492,16 @@ fn one_history(rep: &mut Report, _rng: &mut Rng, idx: u64) {
             let mut seq = out.next_seq;
             let mut acks = out.acks.clone();
             let app = out.app.take().unwrap();
-            let _ = continue_appends(&*app, &mut acks, &mut seq, 3, 12);
-            if let Some(pn) = take_panic() {
-                fail(rep, "fault:panic-with-obstacle-in-place", pt.clone(), pn);
-                continue;
-            }
-            if let Err((sig, what)) = stream_check(&fs.path, &kind, &acks) {
-                fail(rep, &format!("fault-obstacle-in-place:{}", sig), pt.clone(), what);
-                continue;
+            if !immediate {
+                let _ = continue_appends(&*app, &mut acks, &mut seq, 3, 12);
+                if let Some(pn) = take_panic() {
+                    fail(rep, "fault:panic-with-obstacle-in-place", pt.clone(), pn);
+                    continue;
+                }
+                if let Err((sig, what)) = stream_check(&fs.path, &kind, &acks) {
+                    fail(rep, &format!("fault-obstacle-in-place:{}", sig), pt.clone(), what);
+                    continue;
+                }
             }
             // obstruction gone
             // (a later rotation may have renamed the obstacle directory to a higher index)
@@ -470,9 +521,14 @@ fn one_history(rep: &mut Report, _rng: &mut Rng, idx: u64) {
             } else {
                 app
             };
-            let oks = continue_appends(&*app, &mut acks, &mut seq, 4, big);
+            let n_after = if immediate { 2 * cfg.count as usize + 3 } else { 4 };
+            let (oks, early) = continue_appends_checked(&*app, &mut acks, &mut seq, n_after, big, Some((&fs.path, &kind)));
             if let Some(pn) = take_panic() {
                 fail(rep, "fault:panic-after-recovery", pt.clone(), pn);
+                continue;
+            }
+            if let Some((sig, what)) = early {
+                fail(rep, &format!("fault-recovered:{}", sig), pt.clone(), format!("after {} append(s) following the recovery: {}", oks.len(), what));
                 continue;
             }
             if oks.iter().any(|o| !o) {
